@@ -22,6 +22,10 @@ struct Sum {
     needs_prot: BTreeSet<usize>,
     /// frame counters this function may bump as seen by a caller sharing its frame
     bumps: BTreeSet<String>,
+    /// sets or clears the "half-removed tree node" flag (FV.pend)
+    touches_pend: bool,
+    /// reaches a retire (which requires that no half-removed node is pending)
+    needs_nopend: bool,
 }
 
 pub struct EffectOut {
@@ -61,6 +65,7 @@ pub fn generate(idx: &SrcIndex, prelude: &str, cfgv: &Value) -> EffectOut {
         skip_files: strset(cfgv, "skip_files"),
     };
     let held11 = strset(cfgv, "held11");
+    let pend_on_true = strset(cfgv, "pend_on_true");
     let mut inherit_frame = strset(cfgv, "inherit_frame");
     // functions that run inside the caller's critical section (class h11) work in the caller's frame:
     // their unlinking writes count for the caller's later retire
@@ -125,6 +130,8 @@ pub fn generate(idx: &SrcIndex, prelude: &str, cfgv: &Value) -> EffectOut {
                         n.bumps.insert(c.to_string());
                     }
                     match name.as_str() {
+                        "ev_store_bin" => n.touches_pend = true,
+                        "ev_retire" | "ev_retire_value" | "ev_retire_node" => n.needs_nopend = true,
                         "ev_lock" | "ev_unlock" | "ev_validate" => n.may_lock = true,
                         "ev_wait" => n.may_wait = true,
                         "ev_callback" => n.may_callback = true,
@@ -156,6 +163,8 @@ pub fn generate(idx: &SrcIndex, prelude: &str, cfgv: &Value) -> EffectOut {
                         n.may_callback |= c.may_callback;
                         n.has_ctl |= c.has_ctl;
                         n.has_tbl |= c.has_tbl;
+                        n.touches_pend |= c.touches_pend || pend_on_true.contains(callee);
+                        n.needs_nopend |= c.needs_nopend || c.touches_pend;
                         if inherit_frame.contains(callee) {
                             for b in &c.bumps {
                                 n.bumps.insert(b.clone());
@@ -183,6 +192,8 @@ pub fn generate(idx: &SrcIndex, prelude: &str, cfgv: &Value) -> EffectOut {
                 || n.needs_ok != sums[i].needs_ok
                 || n.needs_prot != sums[i].needs_prot
                 || n.bumps != sums[i].bumps
+                || n.touches_pend != sums[i].touches_pend
+                || n.needs_nopend != sums[i].needs_nopend
             {
                 sums[i] = n;
                 changed = true;
@@ -196,7 +207,7 @@ pub fn generate(idx: &SrcIndex, prelude: &str, cfgv: &Value) -> EffectOut {
     // ---------------- render
     let mut body_txt = String::new();
     let mut fn_reports = vec![];
-    let mclass: Vec<bool> = sums.iter().map(|s| s.may_lock || s.may_wait).collect();
+    let mclass: Vec<bool> = sums.iter().map(|s| s.may_lock || s.may_wait || s.touches_pend).collect();
     for (i, s) in sks.iter().enumerate() {
         let sm = &sums[i];
         let public = entry_public(s);
@@ -258,6 +269,18 @@ pub fn generate(idx: &SrcIndex, prelude: &str, cfgv: &Value) -> EffectOut {
         if !sm.has_ctl {
             ens.push("final(f).v().ctl_won == old(f).v().ctl_won".into());
         }
+        // half-removed tree node protocol: remove_tree_node may return `true` with the node taken off the traversal list only;
+        // the caller has to replace the bin before anything is retired, and before it returns
+        if sm.touches_pend || sm.needs_nopend {
+            req.push(format!("!{}.pend,   // OBL:C03:no_half_removed_node_pending_at_call", olk));
+        }
+        if m {
+            if sm.touches_pend {
+                ens.push(format!("!{}.pend,   // OBL:C03:bin_replaced_before_the_operation_returns", flk));
+            } else {
+                ens.push(format!("{}.pend == {}.pend", flk, olk));
+            }
+        }
         if m {
             ens.push(if sm.may_lock { format!("{}.locks_taken >= {}.locks_taken", flk, olk) } else { format!("{}.locks_taken == {}.locks_taken", flk, olk) });
             ens.push(if sm.may_wait { format!("{}.waits >= {}.waits", flk, olk) } else { format!("{}.waits == {}.waits", flk, olk) });
@@ -303,7 +326,7 @@ pub fn generate(idx: &SrcIndex, prelude: &str, cfgv: &Value) -> EffectOut {
             }
         }
         t.push_str("{\n");
-        let mut pr = Printer { out: String::new(), pos: &pos, sums: &sums, mclass: &mclass, m, inherit, extra_loops: ex.and_then(|e| e.get("loops")).cloned(), loop_stack: vec![], inherit_set: &inherit_frame, cut_id: 0, exit_asserts: exlist("exit_assert"), returns_bool: s.returns_bool, use_cuts: { let mut n = 0; walk_all(&s.body, &mut |x| if let Sk::Ev { name, .. } = x { if ev_counter(name).is_some() { n += 1; } }); n >= 30 } };
+        let mut pr = Printer { out: String::new(), pos: &pos, sums: &sums, mclass: &mclass, m, inherit, extra_loops: ex.and_then(|e| e.get("loops")).cloned(), loop_stack: vec![], inherit_set: &inherit_frame, cut_id: 0, exit_asserts: exlist("exit_assert"), returns_bool: s.returns_bool, pend_callees: &pend_on_true, use_cuts: { let mut n = 0; walk_all(&s.body, &mut |x| if let Sk::Ev { name, .. } = x { if ev_counter(name).is_some() { n += 1; } }); n >= 30 } };
         if !inherit {
             pr.out.push_str("    let fr = ev_frame_enter(f);\n");
         }
@@ -389,6 +412,8 @@ struct Printer<'a> {
     cut_id: usize,
     exit_asserts: Vec<String>,
     returns_bool: bool,
+    /// functions whose `true` result means "node taken off the traversal list only" (see LV.pend)
+    pend_callees: &'a BTreeSet<String>,
     /// merge-point lemmas are only emitted for functions with very many write events (solver cost)
     use_cuts: bool,
 }
@@ -439,8 +464,9 @@ impl<'a> Printer<'a> {
                     "reset_wsv" => name == "ev_lock" || name == "ev_validate",
                     "ctl" => name == "ev_ctl_store",
                     "tbl" => name == "ev_write_table" || name == "ev_write_next_table",
+                    "pend" => name == "ev_store_bin",
                     "validate" => name == "ev_lock" || name == "ev_unlock" || name == "ev_validate",
-                    "lk" => name == "ev_lock" || name == "ev_unlock" || name == "ev_validate" || name == "ev_wait",
+                    "lk" => name == "ev_lock" || name == "ev_unlock" || name == "ev_validate" || name == "ev_wait" || name == "ev_store_bin" || name == "ev_pend_set",
                     _ => false,
                 }
             }
@@ -456,8 +482,9 @@ impl<'a> Printer<'a> {
                         "lock" => s.may_lock,
                         "wait" => s.may_wait,
                         "ctl" => s.has_ctl,
+                        "pend" => s.touches_pend || self.pend_callees.contains(callee),
                         "validate" => s.may_lock,
-                        "lk" => self.mclass[j],
+                        "lk" => self.mclass[j] || self.pend_callees.contains(callee),
                         _ => false,
                     };
                 }
@@ -479,8 +506,9 @@ impl<'a> Printer<'a> {
             Sk::Ev { name, args, line, src } => {
                 let a: Vec<String> = match name.as_str() {
                     "ev_check" | "ev_use" | "ev_store_guard" => vec![gref(&args[0]), rootref(&args[1])],
-                    "ev_retire" => vec!["Ghost(f.v())".into(), gref(&args[0]), rootref(&args[1])],
-                    "ev_retire_value" | "ev_retire_node" => vec!["f".into(), gref(&args[0]), rootref(&args[1])],
+                    "ev_retire" => vec![self.lkx().into(), "Ghost(f.v())".into(), gref(&args[0]), rootref(&args[1])],
+                    "ev_retire_value" | "ev_retire_node" => vec![self.lkx().into(), "f".into(), gref(&args[0]), rootref(&args[1])],
+                    "ev_store_bin" => vec!["lk".into(), "f".into()],
                     "ev_lock" | "ev_validate" => vec!["lk".into(), "f".into()],
                     "ev_unlock" | "ev_wait" => vec!["lk".into()],
                     "ev_write_lk" | "ev_store_nt_bin" | "ev_store_marker" | "ev_swap_waiter" | "ev_callback" => vec![self.lkx().into(), "f".into()],
@@ -517,6 +545,13 @@ impl<'a> Printer<'a> {
                 match result {
                     Some(r) => self.out.push_str(&format!("{}let {} = {}({}); // {}\n", i, r, id, a.join(", "), line)),
                     None => self.out.push_str(&format!("{}{}({}); // {}\n", i, id, a.join(", "), line)),
+                }
+                // the callee returns `true` when it took a tree node off the traversal list only (see LV.pend)
+                if self.pend_callees.contains(callee) {
+                    match result {
+                        Some(r) => self.out.push_str(&format!("{}if {} {{ ev_pend_set(lk); }}\n", i, r)),
+                        None => self.out.push_str(&format!("{}if nondet() {{ ev_pend_set(lk); }}\n", i)),
+                    }
                 }
             }
             Sk::Decl { name, init } => self.out.push_str(&format!("{}let mut {}: bool = {};\n", i, name, init.text())),
@@ -594,6 +629,12 @@ impl<'a> Printer<'a> {
                         inv.push(format!("lk.v() == {}", lkk));
                     } else {
                         inv.push(format!("lk.v().held == {}.held", lkk));
+                        if !self.body_has(body, "pend") {
+                            inv.push(format!("lk.v().pend == {}.pend", lkk));
+                        } else {
+                            // a half-removed node is dealt with inside the iteration that produced it
+                            inv.push("!lk.v().pend".to_string());
+                        }
                         if !self.body_has(body, "validate") {
                             inv.push(format!("lk.v().validated == {}.validated", lkk));
                         } else {
